@@ -42,4 +42,9 @@ contract(f"{ENV}::set_random_seed", props=["C03"],
                                            " and event_kind(n_events() - 1) == ev('seed_numpy') and event_arg(n_events() - 1, 0) == seed)"),
                   ("no_seed_no_seeding", "implies((seed is None or seed == -1) and not generate_seed_value, result is None and n_events() == old(n_events()))")],
          raises={"ValueError": "seed is not None and seed < -1"},
-         modifies=[], allocates=True)
+         modifies=[], allocates=True,
+         # call-site view: the two seeding calls, with the seed the function returns (none when it returns None)
+         emits_after=[("seed_python", ["result"], "result is not None"), ("seed_numpy", ["result"], "result is not None")], exact_events=True)
+
+# logging / output settings never steer the seeded random stream
+scan("C03", "output-guarded-randomness", lambda: scans.output_guarded_randomness())
